@@ -24,6 +24,11 @@ def gen_cases(rng, tier):
     for b in range(256):
         yield case("vi_read", [b]), ["read", "one-byte"]
         yield case("vi_read", [b, rng.randrange(256)]), ["read", "one-byte"]
+    # four-byte encodings of SMALL values (legal: the decoder accepts every one of the 2^31 four-byte encodings, whether or not the
+    # encoder would have produced it): all 128 values below 128, and the byte boundaries above
+    for v in list(range(128)) + [128, 255, 256, 65535, 65536, 2 ** 24 - 1, 2 ** 24]:
+        e4 = [(v >> 24) | 0x80, (v >> 16) & 255, (v >> 8) & 255, v & 255]
+        yield case("vi_read", e4 + [rng.randrange(256) for _ in range(rng.randrange(3))]), ["read", "four-byte", "overlong" if v < 128 else "four-byte-boundary"]
     for _ in range(n_rand):
         v = rng.choice([rng.randrange(128), rng.randrange(MAXV + 1), rng.randrange(2 ** 32), 1 << rng.randrange(33)])
         yield case("vi_write", [v]), ["write", "random"]
@@ -44,7 +49,7 @@ def nontrivial(line, tags):
 
 
 def min_classes(tier):
-    return {"truncation": 100, "one-byte": 256, "boundary": 20}
+    return {"truncation": 100, "one-byte": 256, "boundary": 20, "overlong": 128}
 
 
 def oracle(line, impl_line):
